@@ -441,8 +441,7 @@ func (w *_nodeRepr) Length() int64 {
 	case schema.UnionRepresentation_Keyed:
 		return (*_node)(w).Length()
 	case schema.UnionRepresentation_Kinded:
-		w = w.asKinded(stg, w.Kind())
-		return (*_node)(w).Length()
+		return w.asKinded(stg, w.Kind()).Length() // the member's representation length, not its type-level one
 	default:
 		return (*_node)(w).Length()
 	}
@@ -664,14 +663,15 @@ func (w *_assemblerRepr) asKinded(stg schema.UnionRepresentation_Kinded, kind da
 			continue
 		}
 		w2 := *w
-		goType := w.val.Field(idx).Type().Elem()
+		uval := (*_assembler)(w).createNonPtrVal() // the union may sit behind a pointer (optional or nullable field)
+		goType := uval.Field(idx).Type().Elem()
 		valPtr := reflect.New(goType)
 		w2.val = valPtr.Elem()
 		w2.schemaType = member
 
 		// Layer a new finish func on top, to set Index/Value.
 		w2.finish = func() error {
-			unionSetMember(w.val, idx, valPtr)
+			unionSetMember(uval, idx, valPtr)
 			if w.finish != nil {
 				if err := w.finish(); err != nil {
 					return err
@@ -863,12 +863,13 @@ func (w *_assemblerRepr) AssignString(s string) error {
 
 			// TODO: DRY: this has much in common with the asKinded method; it differs only in that we picked idx already in a different way.
 			w2 := *w
-			goType := w.val.Field(idx).Type().Elem()
+			uval := (*_assembler)(w).createNonPtrVal() // the union may sit behind a pointer (optional or nullable field)
+			goType := uval.Field(idx).Type().Elem()
 			valPtr := reflect.New(goType)
 			w2.val = valPtr.Elem()
 			w2.schemaType = member
 			w2.finish = func() error {
-				unionSetMember(w.val, idx, valPtr)
+				unionSetMember(uval, idx, valPtr)
 				if w.finish != nil {
 					if err := w.finish(); err != nil {
 						return err
